@@ -15,7 +15,11 @@ from pydantic import (
     field_serializer,
     model_serializer,
 )
-from pydantic_core import PydanticUndefined, PydanticUndefinedType
+from pydantic_core import (
+    PydanticSerializationError,
+    PydanticUndefined,
+    PydanticUndefinedType,
+)
 
 from mopidy import models
 
@@ -192,7 +196,22 @@ class Wrapper:
             response = self.handle_data(request)
         if response is None:
             return None
-        return ResponseTypeAdapter.dump_json(response, by_alias=True)
+        if isinstance(response, list):
+            return b"[" + b",".join(self._dump_response(r) for r in response) + b"]"
+        return self._dump_response(response)
+
+    def _dump_response(self, response: Response) -> bytes:
+        try:
+            return ResponseTypeAdapter.dump_json(response, by_alias=True)
+        except PydanticSerializationError as exc:
+            # The method returned (or raised) something we cannot send as JSON.
+            error = ApplicationError(
+                data={"type": exc.__class__.__name__, "message": str(exc)},
+            )
+            return ResponseTypeAdapter.dump_json(
+                error.get_response(response.id),
+                by_alias=True,
+            )
 
     def handle_data(
         self,
